@@ -155,6 +155,10 @@ func (c *monC06) After(m *Machine, s *Step) *Violation {
 			return nil
 		}
 		expect := bcryptCanon(want) == bcryptCanon(s.Secret)
+		if m.C.Cfg.Has("lock") && s.Pre.Users[s.Pid].Locked.After(r.T0.UTC()) {
+			expect = false // a locked account takes no password at all (the lock is C03's subject; here it only must not confuse the model)
+			m.flag("login-while-locked")
+		}
 		got := r.UID() == s.Pid && r.Rec.HandlerErr == nil && r.Location != "" && !strings.HasPrefix(r.Location, "/notok")
 		if r.UIDBefore() == s.Pid {
 			// already logged in as that user: judge by the redirect target
@@ -185,11 +189,11 @@ func (c *monC06) End(m *Machine) *Violation { return nil }
 
 var kindsC06 = []wk{
 	{"login", 26}, {"recstart", 6}, {"recend", 10}, {"updpw", 10}, {"newsess", 8}, {"visit", 8}, {"steal", 2}, {"setcookie", 6},
-	{"snip:recover", 12}, {"snip:remember", 10}, {"logout", 2}, {"advance", 3},
+	{"snip:recover", 12}, {"snip:remember", 10}, {"logout", 2}, {"advance", 3}, {"lock", 2}, {"unlock", 2},
 }
 
 var profC06 = profile{
-	must: []string{"auth", "recover"}, may: []string{"remember", "logout"},
+	must: []string{"auth", "recover"}, may: []string{"remember", "logout", "lock"},
 	kinds: kindsC06, minOps: 14, maxOps: 36, accts: [2]int{2, 3}, browsers: [2]int{2, 4}, middlewares: []string{"", "remember", "remember"},
 	tweak: func(t *rapid.T, c *harness.Config) {
 		c.Setups = nil
@@ -197,7 +201,10 @@ var profC06 = profile{
 		for i := range c.Accounts {
 			a := &c.Accounts[i]
 			a.Locked, a.Unconfirmed, a.TOTP, a.Phone, a.Recovery = false, false, false, "", 0
+			// with the lock module: some owners recover a locked account (its veto takes over the login-after-recovery)
+			a.Locked = c.Has("lock") && chance(t, "locked6", 30)
 		}
+		c.LockAfter, c.LockDurS = 100000, 43200 // only seeded and manual locks
 	},
 }
 
